@@ -14,4 +14,11 @@ CONFIG = {
         "quick": {"parts": [part("TestC01", 16, 60)]},
         "thorough": {"parts": [part("TestC01", 32, 700, timeout=3000)]},
     },
+    "C09": {
+        "level": "exploration",
+        "rule": "(a) core level: rapid-generated flat row sets (ties, missing dims, 0-14 rows) x ORDER BY key lists of length 1-4 (fields, dims, _time at every position, ASC/DESC) x LIMIT/OFFSET in [0, rows+3], run through core.Sort/Offset/Limit composed as the planner composes them; (b) SQL level: generated dataset in a real database, SELECT ... ORDER BY ... LIMIT/OFFSET through DB.Query compared with the unordered query. Oracle (validity predicate): output is a sub-multiset of the unordered result with exactly min(n, max(0,total-m)) rows, adjacent rows non-decreasing under an independent lexicographic comparator, and row i key-equivalent to row m+i of a reference sort. Non-trivial: >=2 keys and two rows that tie on the first key but differ on the full list.",
+        "assumptions": ["one scalar type per ordered dimension (core.compare type-asserts its second operand)", "missing dimension sorts before any value (nil first), as core.compare documents by code and TestSort* pin"],
+        "quick": {"parts": [part("TestC09Core", 4, 20000), part("TestC09SQL", 8, 40)]},
+        "thorough": {"parts": [part("TestC09Core", 16, 400000, timeout=3000), part("TestC09SQL", 16, 600, timeout=3000)]},
+    },
 }
